@@ -75,7 +75,7 @@ func allocDelta(f func()) uint64 {
 
 func init() {
 	Register("C09", func(c *Ctx) {
-		c.Out.Rule = "(1) structured enumeration of entries: status 0..4 x response present/absent x 9 header sets (multi-valued, empty value, UTF-8, Latin-1 byte, HTML-special characters, control character) x every subset of {raw,gzip,br} x body sizes {0,1,2,255,256,65535,65536} x compress name/min-length/filter/timestamp combinations: encode then decode must give an entry with identical fields and identical behaviour (Fill for 9 Accept-Encoding values); (2) for a corpus of small valid records: every truncation offset, every single-bit flip, every byte set to 00/7f/80/ff: no panic, no hang, allocation <= 64 x input + 256 KiB, and every proper prefix is reported as an error"
+		c.Out.Rule = "(1) structured enumeration of entries: status 0..4 x response present/absent x 10 header sets (multi-valued, empty value, UTF-8 incl. values whose runes all lie below U+0100, Latin-1 byte, HTML-special characters, control character) x every subset of {raw,gzip,br} x body sizes {0,1,2,255,256,65535,65536} x compress name/min-length/filter/timestamp combinations: encode then decode must give an entry with identical fields and identical behaviour (Fill for 9 Accept-Encoding values); (2) for a corpus of small valid records: every truncation offset, every single-bit flip, every byte set to 00/7f/80/ff: no panic, no hang, allocation <= 64 x input + 256 KiB, and every proper prefix is reported as an error"
 		c.Out.Assume = []string{"field values limited to what the 4/8-byte fields can represent"}
 		env.Silence()
 		compress.VerifFreshRegistries()
@@ -86,6 +86,7 @@ func init() {
 			{"X-Empty": {""}, "Content-Type": {"text/plain"}},
 			{"X-Utf8": {"héllo wörld ✓"}, "Content-Type": {"text/plain; charset=utf-8"}},
 			{"X-Latin1": {"caf\xe9"}, "Content-Type": {"text/plain"}},
+			{"Content-Disposition": {"attachment; filename=\"résumé.pdf\""}, "X-Author": {"José", "Malmö ÿ"}, "Content-Type": {"text/plain"}}, // valid UTF-8, every rune below U+0100
 			{"X-Html": {`<a href="x">&amp;</a> \ "quoted"`}, "Content-Type": {"text/html"}},
 			{"X-Ctl": {"a\tb\x01c"}, "Content-Type": {"text/plain"}},
 			{"Etag": {`W/"abc"`}, "Last-Modified": {"Thu, 01 Dec 1994 16:00:00 GMT"}, "Vary": {"Accept-Encoding", "Origin"}, "Content-Type": {"text/plain"}},
@@ -172,6 +173,52 @@ func init() {
 								c.Violation("roundtrip", sig, fmt.Sprintf("header set %d: entry differs after encode+decode:\n  before %s\n  after  %s", hi, trunc([]byte(want)), trunc([]byte(have))), nil, kase, nil)
 							}
 						}
+					}
+				}
+			}
+			st.States, st.Transitions, st.Nontrivial = st.Execs, st.Execs, st.Execs
+			st.NOutcomes = int(st.Execs)
+		}
+		// every response status code a server may write (100..999, most of them without a registered reason phrase)
+		if c.Want("roundtrip-status-codes") && c.Shard == 1%c.NShards {
+			st := c.Stat("roundtrip-status-codes", "enumeration")
+			st.Bounds = "entry status hit x every response status code 100..999 x {raw body, gzip only}: encode, decode, and the load path of a new entry give the same entry"
+			for code := 100; code <= 999; code++ {
+				for v := 0; v < 2; v++ {
+					resp := &cache.HTTPResponse{Header: http.Header{"Content-Type": {"text/plain"}}, StatusCode: code, CompressSrv: "profile1", CompressMinLength: 1024}
+					if v == 0 {
+						resp.RawBody = []byte("status body")
+					} else {
+						resp.GzipBody = refEncode("gzip", []byte(c20Payload(2000)))
+					}
+					status, created, expired := int(cache.StatusHit), int64(1700000000), int64(1700000600)
+					kase := map[string]interface{}{"code": code, "variant": v}
+					st.Execs++
+					data, err := cache.VerifEncode(status, resp, created, expired)
+					if err != nil {
+						c.Violation("roundtrip-status-codes", "encode-error", err.Error(), nil, kase, nil)
+						continue
+					}
+					got, err := cache.VerifDecode(data)
+					if err != nil {
+						c.Violation("roundtrip-status-codes", "decode-error-on-own-record", fmt.Sprintf("response status code %d: %v", code, err), nil, kase, nil)
+						continue
+					}
+					want := c09Behaviour(status, resp, created, expired)
+					if have := c09Behaviour(got.Status, got.Resp, got.CreatedAt, got.ExpiredAt); have != want {
+						c.Violation("roundtrip-status-codes", "roundtrip-differs", fmt.Sprintf("response status code %d: before %s after %s", code, trunc([]byte(want)), trunc([]byte(have))), nil, kase, nil)
+						continue
+					}
+					fs := env.NewFaultStore()
+					fs.HonorTTL = false
+					fs.Disk["k"] = env.DiskRec{Data: data}
+					vtime.Set(1700000000)
+					d := cache.VerifNewDispatcher(1, 4, 0, fs)
+					hc := d.GetHTTPCache([]byte("k"))
+					stGot, _ := hc.Get()
+					sn := hc.VerifSnapshot()
+					if have2 := c09Behaviour(sn.Status, sn.Resp, sn.CreatedAt, sn.ExpiredAt); int(stGot) != status || have2 != want {
+						c.Violation("roundtrip-status-codes", "record-not-restored-by-load-path", fmt.Sprintf("a record pike wrote for a hit with response status code %d was loaded as status %v", code, stGot), nil, kase, nil)
 					}
 				}
 			}
